@@ -5,6 +5,8 @@ import math
 import mpmath as mp
 import numpy as np
 
+mp.mp.dps = 50
+
 from env import get_xp
 from env.flows import LatticeFlow
 from env.targets import Monitor, box_logprior, gauss_loglike, vonmises_loglike
@@ -109,4 +111,51 @@ def exact_rhs(m, fs):
 def make_flow(m, Q, ctx, xp_name, dtype=None):
     logq = [math.log(Q[j]) - math.log(m["J"][j]) - math.log(m["h"]) for j in range(len(Q))]
     return LatticeFlow(m["dims"], xs=np.asarray(m["xs"]).reshape(-1, 1), Q=Q, logq=logq, ctx=ctx,
+                       xp_name=xp_name, dtype=dtype)
+
+
+def model_2d(target, precond, K=2):
+    """Product lattice of two 1-D models (K points per dimension)."""
+    a = model_1d(target, precond, K)
+    b = model_1d("box" if target != "periodic" else "periodic", precond if target != "periodic" else "default", K)
+    la, lb = a["like"], b["like"]
+    pa, pb = a["prior"], b["prior"]
+
+    def like(x):
+        x = np.asarray(x, dtype=np.float64).reshape(len(x), -1)
+        return la(x[:, :1]) + 0.7 * lb(x[:, 1:2])
+
+    def prior(x):
+        x = np.asarray(x, dtype=np.float64).reshape(len(x), -1)
+        return pa(x[:, :1]) + pb(x[:, 1:2])
+
+    xs = [[xa, xb] for xa in a["xs"] for xb in b["xs"]]
+    J = [ja * jb for ja in a["J"] for jb in b["J"]]
+    m = {"dims": 2, "parameters": ["p0", "p1"], "like": like, "prior": prior,
+         "bounds": {"p0": a["bounds"]["p0"], "p1": b["bounds"]["p0"]},
+         "periodic": (["p0"] if a["periodic"] else []) + (["p1"] if b["periodic"] else []) or None,
+         "preconditioning": a["preconditioning"], "precond_kwargs": a["precond_kwargs"],
+         "xs": xs, "J": J, "h": a["h"] * b["h"], "hvec": [a["h"], b["h"]]}
+    return m
+
+
+def exact_rhs_nd(m, fs):
+    """sum_j L pi J f(x_j) * cell volume; f receives the first coordinate."""
+    xs = np.asarray(m["xs"], dtype=np.float64).reshape(len(m["xs"]), -1)
+    L = m["like"](xs)
+    P = m["prior"](xs)
+    out = []
+    for f in fs:
+        tot = mp.mpf(0)
+        for j in range(len(xs)):
+            if not np.isfinite(L[j] + P[j]):
+                continue
+            tot += mp.exp(mp.mpf(float(L[j])) + mp.mpf(float(P[j]))) * mp.mpf(m["J"][j]) * f(mp.mpf(float(xs[j, 0])))
+        out.append(tot * mp.mpf(m["h"]))
+    return out
+
+
+def make_flow_nd(m, Q, ctx, xp_name, dtype=None):
+    logq = [math.log(Q[j]) - math.log(m["J"][j]) - math.log(m["h"]) for j in range(len(Q))]
+    return LatticeFlow(m["dims"], xs=np.asarray(m["xs"], dtype=np.float64).reshape(len(Q), -1), Q=Q, logq=logq, ctx=ctx,
                        xp_name=xp_name, dtype=dtype)
